@@ -878,7 +878,9 @@ class Interp(object):
         if k == "discr":
             v = self.read(st, rv["place"])
             if isinstance(v, Adt):
-                return v.variant
+                # the DISCRIMINANT, not the variant index (they differ for core::cmp::Ordering and for enums with explicit discriminants)
+                import inline
+                return inline._arm_value({"path": v.path, "variant": v.variant})
             raise Undecided("discriminant of a non-enum abstract value")
         if k == "aggregate":
             ops = [self.operand(st, o) for o in rv["ops"]]
